@@ -1337,7 +1337,28 @@ func ruleStepBuffers(r *Run) {
 								fld, base, okf := loadOfField(pair[0])
 								_, okc := constOf(pair[1])
 								if okf && okc && unspill(base) == ssa.Value(fn.Params[0]) && !fieldWrittenAfterConstruction(p, fn, fld) {
-									covered = true
+									// in this mode nothing is ever written: every writer sits on the other
+									// side of the same test
+									never := true
+									for _, wr := range writers {
+										lifted := liftInstr(wr, fn, funcGroup(fn), false)
+										if lifted == nil {
+											never = false
+											continue
+										}
+										opposite := false
+										for _, wf := range factsAt(lifted.Block()) {
+											if wf.Cond == f.Cond && wf.Truth != f.Truth {
+												opposite = true
+											}
+										}
+										if !opposite {
+											never = false
+										}
+									}
+									if never {
+										covered = true
+									}
 								}
 							}
 						}
